@@ -120,6 +120,10 @@ pub struct C08 {
     /// it takes batch number `.0` (a validation run, a checkpoint): seconds, not milliseconds
     #[serde(default)]
     pub consumer_pause: Option<(u8, u32)>,
+    /// every instance except the reference ones asks for another batch after the end of the epoch
+    /// (lock-step loops of ranks with uneven shards, `next(it, None)`): the stream stays ended
+    #[serde(default)]
+    pub poll_after_end: bool,
 }
 
 fn tok_cfg(t: &Tok) -> TokenizerConfig {
@@ -510,6 +514,7 @@ impl Scenario for C08 {
             limit,
             variations,
             trainer_pattern: rng.chance(0.5),
+            poll_after_end: false,
             consumer_pause: if rng.chance(0.2) { Some((rng.below(3) as u8, rng.range(520_000, 6_000_000) as u32)) } else { None },
         }
         .with_batch(&mut rng)
@@ -665,6 +670,12 @@ impl Scenario for C08 {
                 true
             });
         }
+        if self.poll_after_end {
+            push(&|c| {
+                c.poll_after_end = false;
+                true
+            });
+        }
         if self.trainer_pattern {
             push(&|c| {
                 c.trainer_pattern = false;
@@ -792,6 +803,7 @@ impl C08 {
     fn with_batch(mut self, rng: &mut Rng) -> Self {
         self.padded_item_size = rng.chance(0.4);
         self.batch_limit = if self.padded_item_size { rng.usize(20, 300) } else { rng.usize(0, 6) };
+        self.poll_after_end = rng.chance(0.3);
         self
     }
 
@@ -878,6 +890,10 @@ impl Exec<'_> {
         let pre_iter = sc.trainer_pattern && !inst.label.starts_with('R');
         if pre_iter {
             self.stats.fault("iter_called_before_set_epoch_and_fast_forward");
+        }
+        let poll_again = sc.poll_after_end && !inst.label.starts_with('R');
+        if poll_again {
+            self.stats.fault("next_called_again_after_the_end_of_the_epoch");
         }
         let pause = if inst.label.starts_with('R') { None } else { sc.consumer_pause };
         if pause.is_some() {
@@ -971,6 +987,18 @@ impl Exec<'_> {
                     }
                     Ok(None) => {
                         rt::log(Kind::RecvEnd, bno, 0);
+                        if poll_again {
+                            for _ in 0..2 {
+                                if let Ok(Some(items)) = drv.next_batch() {
+                                    // reported as part of the stream: it must not exist
+                                    rt::log(Kind::Batch, bno, items.len() as u64);
+                                    bno += 1;
+                                    let strs: Vec<String> = items.iter().map(|it| format!("{it:?}")).collect();
+                                    slot2.lock().unwrap().0.push(strs);
+                                }
+                            }
+                            rt::log(Kind::Note, 3, 0);
+                        }
                         break;
                     }
                     Err(e) => {
